@@ -8,7 +8,7 @@ From DBG Require Import Spec.Dna Spec.GraphIndex Packed.ExtsModel Algo.Compress 
   Algo.Recompress Spec.EdgeSpec Check.RecompCheck Check.RecompLooseCheck Check.RecompOrder
   Proofs.ListFacts Proofs.DnaFacts Proofs.GraphQueryProofs Proofs.WalkProofs Proofs.AbstractWalk Proofs.SeedMin
   Proofs.RecompCheckProofs Proofs.RecompressProofs Proofs.RecompKmers Proofs.RecompExts Proofs.RecompLoose
-  Proofs.RecompLooseMain Proofs.RecompOutEnds Proofs.RecompSeedMin Proofs.RecompTile.
+  Proofs.RecompLooseMain Proofs.RecompOutEnds Proofs.RecompOutMain Proofs.RecompSeedMin Proofs.RecompTile.
 Import ListNotations.
 Local Open Scope nat_scope.
 
@@ -238,3 +238,23 @@ Proof.
   cbn in H. injection H as ->. eapply chk_payload_order_paths; eauto.
 Qed.
 End OrderComplete.
+
+(* ---------------------------------------------------------------- where the hypothesis holds *)
+Section CrossAll.
+Variable D : Type.
+Variable K : nat.
+Variable stranded : bool.
+Local Notation graph := (graph D).
+
+Lemma cross_all_stranded (g : graph) : stranded = true -> cross_all D K stranded g.
+Proof. intro St. now apply cross_ok_stranded. Qed.
+
+(* C03's ends_ok (checked on every implementation graph by chk_graph_ok; holds of every graph compress_kmers builds) *)
+Lemma cross_all_of_ends_ok (g : graph) : ends_ok D K stranded g -> cross_all D K stranded g.
+Proof. intro E. now apply ends_ok_cross_ok. Qed.
+
+(* every canonical k-mer occurs once in the graph *)
+Lemma cross_all_of_kmers (g : graph) :
+  Forall (node_ok D K) g -> NoDup (surv_kmers D K stranded g (seq 0 (length g))) -> cross_all D K stranded g.
+Proof. intros Hok Hnd. now apply nodup_kmers_cross_ok. Qed.
+End CrossAll.
